@@ -36,12 +36,28 @@ Lemma reaches_shared_out_of_fuel :
   site_guarded deep_table ("A"%string, true, ["call:b"%string]) = false.
 Proof. repeat split; vm_compute; reflexivity. Qed.
 
-(* the access sequence of every method of *SchemaCache is the one Conc.v mirrors *)
-Lemma cache_methods_agree : ConcGen.cache_methods = expected_cache_methods.
+(* the access sequence of every method of *SchemaCache is the one Conc.v mirrors — up to where
+   RefSchema.To is READ inside the critical section (ConcSites.v says why that cannot matter;
+   census_projected_reads below is the side condition) *)
+Lemma cache_methods_agree : project_tab ConcGen.cache_methods = expected_cache_methods.
 Proof. vm_compute. reflexivity. Qed.
 
-Lemma placeholder_functions_agree : ConcGen.placeholder_functions = expected_placeholder_functions.
+Lemma placeholder_functions_agree : project_tab ConcGen.placeholder_functions = expected_placeholder_functions.
 Proof. vm_compute. reflexivity. Qed.
+
+(* the projection drops nothing but reads of To: lock operations, map accesses, writes, hooks and
+   calls of the raw table all survive it, in order *)
+Lemma project_keeps : forall t toks, is_projected_read t = false -> In t toks -> In t (project toks).
+Proof.
+  intros t toks Ht Hin. unfold project. apply filter_In. split; [exact Hin | rewrite Ht; reflexivity].
+Qed.
+
+Lemma project_only_drops_to_reads : forall t toks, In t toks -> ~ In t (project toks) -> t = "read:To"%string.
+Proof.
+  intros t toks Hin Hn. destruct (is_projected_read t) eqn:E.
+  - unfold is_projected_read in E. apply String.eqb_eq in E. exact E.
+  - exfalso. apply Hn. apply project_keeps; assumption.
+Qed.
 
 Lemma codec_entry_points_agree : ConcGen.codec_entry_points = expected_codec_entry_points.
 Proof. vm_compute. reflexivity. Qed.
@@ -63,6 +79,12 @@ Lemma census_holders : holders_hold_only_the_cache ConcStateGen.shared_fields = 
 Proof. vm_compute. reflexivity. Qed.
 
 Lemma census_lk_writes_to_fresh : lk_writes_to_fresh ConcStateGen.lk_field_writes = true.
+Proof. vm_compute. reflexivity. Qed.
+
+(* every function of the token tables that reads To is off the lock-free path (so it runs with sc.mu
+   held), an exported one is one critical section, and no lock-free function writes To *)
+Lemma census_projected_reads :
+  projected_reads_ok ConcStateGen.lockfree_fns ConcStateGen.state_writes = true.
 Proof. vm_compute. reflexivity. Qed.
 
 Lemma census_holds : census_ok = true.
@@ -87,7 +109,9 @@ Lemma census_rejects_regressions :
   vars_only_initialised (pkg_cache_write :: ConcStateGen.state_writes) = false /\
   holders_hold_only_the_cache (("j5reflect.Reflector.rootProps"%string, "map[string]*j5reflect.propSet"%string, true) :: ConcStateGen.shared_fields) = false /\
   forallb shared_type_ok ("j5reflect.propSet"%string :: ConcStateGen.shared_types) = false /\
-  lk_writes_to_fresh (republish_write :: ConcStateGen.lk_field_writes) = false.
+  lk_writes_to_fresh (republish_write :: ConcStateGen.lk_field_writes) = false /\
+  projected_reads_ok ("j5schema.buildEnumFieldSchema"%string :: ConcStateGen.lockfree_fns) ConcStateGen.state_writes = false /\
+  projected_reads_ok ("j5schema.SchemaCache.schemaLocked"%string :: ConcStateGen.lockfree_fns) ConcStateGen.state_writes = false.
 Proof. repeat split; vm_compute; reflexivity. Qed.
 
 (* ---- the unguarded discipline violates the property ------------------------ *)
